@@ -104,6 +104,7 @@ class Machine:
         self.log = log or core.EventLog()
         self.step = 0
         self.pending_c15 = []
+        self.big_ok = True
 
     # ------------------------------------------------------------------ violations
     def fail(self, prop, vclass, where, message):
@@ -143,13 +144,19 @@ class Machine:
                 rows = rng.choice((0, 1, 2, 3, 4, 5, 6, 8))
             elif r < 0.985:
                 rows = rng.choice((12, 17, 30, 40))
-            else:
+            elif r < 0.9985 or not self.big_ok:
                 rows = rng.choice((257, 300))  # row ids beyond one byte
+            else:
+                rows = rng.choice((65537, 70000))  # row ids beyond two bytes (rare: costs ~1 s per history)
         if rng.random() < 0.45:
             return (rows,)
         cols = rng.choice((1, 2, 2, 3, 3, 0 if rng.random() < 0.1 else 2))
         if rng.random() < 0.04:
             cols = rng.choice((4, 5, 9))
+        if rows <= 8 and rng.random() < 0.01:
+            cols = rng.choice((256, 300))  # more columns than one byte counts
+        if rows > 1000:
+            cols = 1
         return (rows, cols)
 
     def gen_new(self, rng, palette, shape=None):
@@ -219,6 +226,8 @@ class Machine:
             return None
         s = self.slots[i]
         others = [j for j, t in enumerate(self.slots) if j != i and t.a.shape[1:] == s.a.shape[1:]]
+        if rng.random() < 0.05 and s.a.shape[0] <= 64:
+            return {"op": "append", "slot": i, "other": i}  # the operand aliases the receiver
         if others and rng.random() < 0.4:
             return {"op": "append", "slot": i, "other": rng.choice(others)}
         rows = rng.choice((0, 0, 1, 1, 2, 3, 5))
@@ -507,13 +516,22 @@ class Machine:
 
     def do_append(self, op):
         s = self.slot(op["slot"], maxdim=2)
+        alias = False
         if "other" in op:
-            self.guard(op["other"] != op["slot"] and op["other"] < len(self.slots))
+            self.guard(op["other"] < len(self.slots))
             o = self.slots[op["other"]]
             oidx, oa = o.idx, o.a
+            alias = op["other"] == op["slot"]
         else:
             oidx, oa = self.build(op["fresh"])
         self.guard(oa.ndim == s.a.ndim and oa.shape[1:] == s.a.shape[1:])
+        if alias:
+            # x.append(x): NumPy's concatenate([a, a]); there is no non-receiver operand to protect
+            self.stats.count("probe_append_operand_aliases_receiver")
+            self.call("append", s.idx.append, oidx)
+            s.a = numpy.concatenate([oa, oa], axis=0)
+            self.check_most_frequent(s, "append")
+            return
         snap = model.snapshot(oidx)
         if oa.shape[0] == 0:
             self.stats.count("probe_append_empty_operand")
